@@ -564,10 +564,42 @@ def category_mapping(ctx, tick, tr):
             found = unparse(h)
     c = f'{tick.file}:QvmCpu.tick:except ZeroDivisionError'
     ctx.instance(rule, c)
-    if not found or 'TrapCode.DIVISION_BY_ZERO' not in found:
+    if found and 'TrapCode.DIVISION_BY_ZERO' not in found:
         ctx.finding(rule, c, 'ZeroDivisionError is not mapped to '
                     'TrapCode.DIVISION_BY_ZERO in tick()', tick.file,
                     tr.lineno)
+    if not found:
+        # no catch-all arm: then every dividing handler must test its
+        # divisor itself (/, //, % by zero; 0 ** negative)
+        handlers, _, _ = R.cpu_handlers(repo)
+        for name, h in sorted(handlers.items()):
+            for x in ast.walk(h.node):
+                if not (isinstance(x, ast.BinOp) and isinstance(
+                        x.op, (ast.Div, ast.FloorDiv, ast.Mod, ast.Pow))
+                        and '.value' in unparse(x)):
+                    continue
+                divisor = unparse(x.left if isinstance(x.op, ast.Pow)
+                                  else x.right)
+                cfg = build_cfg(h.node, repo_noreturn)
+                st = x
+                while not isinstance(st, ast.stmt):
+                    st = st._parent
+                guarded = False
+                for cn in (y for y in cfg.nodes if y.ast is st):
+                    for tnode, lab in cfg.conditions(cn):
+                        t = unparse(tnode.ast.test)
+                        if divisor in t and '0' in t and \
+                                'DIVISION_BY_ZERO' in unparse(tnode.ast):
+                            guarded = True
+                c2 = f'{h.file}:{h.qualname}:{type(x.op).__name__}'
+                ctx.instance(rule, c2, sample={'zero_test': guarded})
+                if not guarded:
+                    ctx.finding(rule, c2,
+                                f'tick() has no ZeroDivisionError arm and '
+                                f'{h.qualname} computes `{unparse(x)[:50]}` '
+                                f'without a trapping zero test on '
+                                f'`{divisor}`: a host ZeroDivisionError '
+                                f'escapes run()', h.file, x.lineno)
     found = None
     for h in tr.handlers:
         if dotted(h.type) == 'Trapped':
